@@ -1770,6 +1770,14 @@ def eval_int(f, eb, e, depth=0):
         return eval_int(f, eb, e[2][0], depth + 1)
     if k == 'proj' and e[2] == ('.0',) and e[1][0] == 'bin':
         return eval_int(f, eb, e[1], depth + 1)
+    if k == 'call' and e[1] in ('core::slice::<impl [T]>::len', 'core::array::<impl [T; N]>::len') and len(e[2]) == 1:
+        # the length of an array literal viewed as a slice (`let fds = [-1]; .. fds.len()`)
+        a = e[2][0]
+        while a[0] in ('cast', 'ref'):
+            a = a[4] if a[0] == 'cast' else a[1]
+        if a[0] == 'agg' and a[1] == 'array':
+            return len(a[3])
+        return None
     if k == 'bin':
         op = e[1].replace('WithOverflow', '').replace('Unchecked', '')
         if op in _BINOPS:
